@@ -70,18 +70,24 @@ func zzC07_pair() {
 	var a, b Exif
 	var ea, eb error
 	switch zzPart() {
-	case 0: // SHORT embedded (left-justified): Orientation, ImageWidth
-		v := zzU16("v")
-		for _, id := range []uint16{0x0112, 0x0100, 0x0101} {
-			sl := []byte{byte(v), byte(v >> 8), 0, 0}
-			sm := []byte{byte(v >> 8), byte(v), 0, 0}
-			el := append(zzEnt(false, id, 3, 1, 0)[:8], sl...)
-			em := append(zzEnt(true, id, 3, 1, 0)[:8], sm...)
+	case 0: // SHORT embedded (left-justified), count 1 with arbitrary bytes in the unused half of the slot, or count 2:
+		// Orientation, ImageWidth/Height (16-bit fields) and StripOffsets/StripByteCounts (SHORT widened to 32 bits)
+		v, w := zzU16("v"), zzU16("pad")
+		cnt := zzU32("cnt")
+		zzAssume(cnt == 1 || cnt == 2)
+		cnt = uint32(zzConc(uint64(cnt), 2))
+		for _, id := range []uint16{0x0112, 0x0100, 0x0101, 0x0111, 0x0117} {
+			sl := []byte{byte(v), byte(v >> 8), byte(w), byte(w >> 8)}
+			sm := []byte{byte(v >> 8), byte(v), byte(w >> 8), byte(w)}
+			el := append(zzEnt(false, id, 3, cnt, 0)[:8], sl...)
+			em := append(zzEnt(true, id, 3, cnt, 0)[:8], sm...)
 			a, ea = zzDecodeOne(false, el, nil)
 			b, eb = zzDecodeOne(true, em, nil)
-			zzAssert((ea == nil) == (eb == nil) && a.Orientation == b.Orientation && a.ImageWidth == b.ImageWidth && a.ImageHeight == b.ImageHeight, "SHORT fields decode alike under II and MM")
-			zzAssert(uint16(a.Orientation) == v || id != 0x0112, "Orientation is the SHORT value")
-			zzAssert(a.ImageWidth == v || id != 0x0100, "ImageWidth is the SHORT value")
+			zzAssert((ea == nil) == (eb == nil) && a.Orientation == b.Orientation && a.ImageWidth == b.ImageWidth && a.ImageHeight == b.ImageHeight &&
+				a.StripOffsets == b.StripOffsets && a.StripByteCounts == b.StripByteCounts, "SHORT fields decode alike under II and MM")
+			zzAssert(uint16(a.Orientation) == v || id != 0x0112 || cnt != 1, "Orientation is the SHORT value")
+			zzAssert(a.ImageWidth == v || id != 0x0100 || cnt != 1, "ImageWidth is the SHORT value")
+			zzAssert(a.StripOffsets == uint32(v) || id != 0x0111 || cnt != 1, "StripOffsets given as a SHORT is that value")
 		}
 	case 1: // LONG embedded: StripOffsets, ImageWidth as LONG
 		v := zzU32("v")
